@@ -70,8 +70,10 @@ def run_vrp(case):
                 pass
             del events[:]            # the earlier call is not part of this trace
         if case["mode"] == "solve":
+            stop_at = case.get("stop_at")
+            pk = {"on_progress": (lambda p: p.iteration >= stop_at), "progress_interval": 1} if stop_at else {}
             r = vrp.solve_vrptw(customers, case["vehicles"], depot=(float(dx), 0.0), vehicle_capacity=float(case["capacity"]), max_iter=case.get("max_iter", 60),
-                                max_no_improve=case.get("max_iter", 60), seed=case["seed"])
+                                max_no_improve=case.get("max_iter", 60), seed=case["seed"], **pk)
             st = _proj_state(r.solution)
             o = float(r.objective)
             events.append({"e": "result", "status": r.status.name, "state": st, "obj": int(round(o)), "exact": abs(o - round(o)) < 1e-6 and st["exact"]})
@@ -118,13 +120,26 @@ def gen_vrp_tight(rng, mode="solve"):
     total = sum(c[1] * c[5] for c in customers)
     cap = max(4, int(total / veh * rng.choice([0.6, 0.8, 1.0, 1.3])))
     case = {"customers": customers, "vehicles": veh, "capacity": cap, "seed": rng.randint(0, 10 ** 6), "mode": mode, "max_iter": rng.choice([0, 1, 150, 150, 150])}
+    if mode == "solve" and case["max_iter"] > 1 and rng.random() < 0.5:
+        case["stop_at"] = rng.choice([3, 5, 8, 13, 21, 40, 70])   # the progress callback asks to stop while the walk is away from the best state
     if mode == "sequence":
         names = list(OPS)
         case["sequence"] = ["sync_aware_insertion"] + [rng.choice(names) for _ in range(rng.randint(6, 16))]
     return case
 
 
+def gen_vrp_stop(rng):
+    """7-9 serviceable customers, three vehicles with room to spare: the annealing walk of the adaptive search keeps leaving the best
+    state it has seen, and the progress callback asks to stop somewhere along the way"""
+    n = rng.randint(7, 9)
+    customers = [[rng.randint(-20, 20), rng.randint(1, 4), 0, None if rng.random() < 0.6 else rng.randint(30, 80), rng.randint(0, 2), 1] for _ in range(n)]
+    return {"customers": customers, "vehicles": 3, "capacity": rng.choice([12, 15, 100]), "seed": rng.randint(0, 10 ** 6), "mode": "solve",
+            "max_iter": 80, "stop_at": rng.randint(3, 60), "depot_x": rng.choice([0, 0, rng.randint(-10, 10)])}
+
+
 def gen_vrp(rng, mode="solve"):
+    if mode == "solve" and rng.random() < 0.25:
+        return gen_vrp_stop(rng)
     if rng.random() < 0.45:
         return gen_vrp_tight(rng, mode)
     n = rng.randint(2, 7)
@@ -138,6 +153,8 @@ def gen_vrp(rng, mode="solve"):
         nsync += req == 2
         customers.append([x, rng.randint(0, 4), tws, twe, rng.randint(0, 3), req])
     case = {"customers": customers, "vehicles": rng.choice([1, 2, 2, 3, 3, 4]), "capacity": rng.choice([5, 8, 100]), "seed": rng.randint(0, 10 ** 6), "mode": mode}
+    if mode == "solve" and rng.random() < 0.5:
+        case["stop_at"] = rng.choice([2, 4, 6, 9, 15, 25])        # the progress callback asks to stop
     if rng.random() < 0.4:
         case["depot_x"] = rng.randint(-15, 15)
         if rng.random() < 0.6:
